@@ -1434,7 +1434,15 @@ fn oracle_c03(t: &WorldTrace, obs: &[Obs], stats: &mut Stats) -> Vec<Violation> 
         return out; // crashes are C13/C14 territory
     }
     if !clash && !alone.failed() {
-        // not a stand-alone fault for this analyzer: C03 says nothing
+        // The smallest composition: the faulty file with no company at all. For the declaration-local
+        // faults that are violations beyond doubt of a documented rule or of the lexical / syntactic
+        // rules (no feature could make them legal), acceptance is already a masked error.
+        const BEYOND_DOUBT: &[&str] = &["struct_dup_elem", "subrange_order", "enum_dup_value", "enum_dup_value_typed", "const_no_init", "lex_char", "syntax_stmt", "syntax_type", "syntax_var"];
+        if BEYOND_DOUBT.contains(&kind.as_str()) {
+            out.push(viol("C03", format!("C03/rule-violation-accepted/{kind}"), format!("the file that holds the planted fault ({kind}) and nothing else is accepted: {:?}", t.world.fault.as_ref().map(|f| f.involved.iter().map(|d| t.world.decls[*d].text.clone()).collect::<Vec<_>>()))));
+            return out;
+        }
+        // otherwise: not a stand-alone fault for this analyzer, C03 says nothing
         stats.count("c03.discarded_alone_run_ok");
         return out;
     }
